@@ -1,7 +1,6 @@
 //! C15 — `cfavml_gemm::transpose::transpose_matrix`.
 
 use std::fmt::Debug;
-use std::fmt::Write as _;
 
 use cfavml_gemm::transpose::transpose_matrix;
 
@@ -12,7 +11,7 @@ use crate::prng::Rng;
 pub const RULE: &str = "case = transpose_matrix::<T>(width, height, data[dl], result[rl]) for T in f32, u32, i32, \
 f64, u64, i64, u8, u16, u128 and a 3-byte Copy struct; data is a position-dependent pattern (unique per index \
 where the type is wide enough), both buffers end-flush against a PROT_NONE page (second placement: start-flush) \
-with canaries on the other side. Shapes: all of [0,40]^2 plus skewed/large shapes (1x1000, 1000x1, 257x3, 3x257, \
+with canaries on the other side. Shapes: all of [0,40]^2 (thorough: [0,80]^2) plus skewed/large shapes (1x1000, 1000x1, 257x3, 3x257, \
 64x64, 100x37, 128x128, ...). Expected when dl = rl = width*height: no panic/fault, result[i*height+j] == \
 data[j*width+i], data unchanged, canaries intact, and transposing the result back with swapped dimensions \
 restores data. Expected panic when dl or rl differs from width*height (each +-1 and a few other lengths) and when \
@@ -127,6 +126,13 @@ impl Case for TCase {
             mix(&mut h, v as u64);
         }
         h
+    }
+    fn calls(&self) -> u64 {
+        if self.agrees() {
+            2
+        } else {
+            1
+        }
     }
     fn shrink(&self) -> Vec<Self> {
         let mut out = Vec::new();
@@ -292,10 +298,11 @@ fn shapes(tier: Tier) -> Vec<(usize, usize)> {
         (96, 41),
     ]);
     if tier == Tier::Thorough {
-        for w in 41..=72 {
-            for h in [2usize, 7, 8, 9, 15, 16, 17, 31, 33, 47, 64, 72] {
-                v.push((w, h));
-                v.push((h, w));
+        for w in 0..=80 {
+            for h in 0..=80 {
+                if w > 40 || h > 40 {
+                    v.push((w, h));
+                }
             }
         }
         v.extend_from_slice(&[(256, 256), (300, 200), (1, 100_000), (100_000, 1), (513, 127)]);
